@@ -182,7 +182,21 @@ def base_off12(ctx):
     return 1e12 + 100.0 * base_twopeak(ctx)
 
 
-BASES = {"off8": base_off8, "off12": base_off12, "drift": base_drift, "bigpeak": base_bigpeak, "zero": base_zero, "neg": base_neg, "alt": base_alt, "peak": base_peak, "negpeak": base_negpeak,
+def base_noisy(ctx):
+    # a point-dependent reward plus a deterministic pseudo-noise of amplitude 0.5 (empirical variances keep changing)
+    return base_twopeak(ctx) + 0.5 * math.sin(12.9898 * ctx.t * ctx.t + 1.0)
+
+
+def base_noff5(ctx):
+    # a cost of the order of -1e5 whose spread is of order one (relative tie tests call everything equal)
+    return -1e5 + base_twopeak(ctx)
+
+
+def base_noff6(ctx):
+    return -1e6 + 3.0 * base_peak(ctx)
+
+
+BASES = {"noisy": base_noisy, "noff5": base_noff5, "noff6": base_noff6, "off8": base_off8, "off12": base_off12, "drift": base_drift, "bigpeak": base_bigpeak, "zero": base_zero, "neg": base_neg, "alt": base_alt, "peak": base_peak, "negpeak": base_negpeak,
          "twopeak": base_twopeak}
 
 
